@@ -12,6 +12,8 @@ Answers: `ok <value>` (scalar / lane list / slice list / `true|false`) or `fault
 import CfavmlModel.Driver.Native
 import CfavmlModel.Gen.DriverTable
 import CfavmlModel.Gen.Kernels
+import CfavmlModel.Hand.ThreadPool
+import CfavmlModel.Hand.AlignedBuffer
 
 namespace Cfavml.Driver
 
@@ -190,6 +192,22 @@ def runMath {w : Nat} (M : Math (BitVec w)) (method : String) (args : List (BitV
   | "div", [a, b] => outVal (M.div a b)
   | _, _ => "bad-request math method/arguments"
 
+/-- environment values travel hex-encoded (`-` = unset, `=` = empty string) -/
+def decodeEnv (t : String) : Option (Option String) :=
+  if t == "-" then some none
+  else if t == "=" then some (some "")
+  else
+    let cs := t.toList
+    let rec go : List Char → Option (List Char)
+      | [] => some []
+      | [_] => none
+      | a :: b :: rest => do
+        let x ← hexDigit a
+        let y ← hexDigit b
+        let r ← go rest
+        pure (Char.ofNat (x * 16 + y) :: r)
+    (go cs).map (fun l => some (String.ofList l))
+
 def parseArgs (w n : Nat) (ts : List String) : Option (List (Arg w n)) :=
   ts.foldr (fun t acc => do let a ← parseArg w n t; let r ← acc; pure (a :: r)) (some [])
 
@@ -220,6 +238,21 @@ def handle (E : Env) (line : String) : Env × String :=
       | none => "bad-request arguments") with
     | some out => (E, out)
     | none => (E, "bad-request unknown math/type")
+  | ["pool", phys, nt, nc] =>
+    match parseHex phys, decodeEnv nt, decodeEnv nc with
+    | some p, some ntv, some ncv =>
+      let e : Hand.PoolEnv := { numThreads := ntv, noCache := ncv, noPinning := none, physical := p }
+      let r := (Hand.getOrInitPool e Hand.PoolState.init).2
+      let b := match r with | .borrowed _ => "1" | .owned _ => "0"
+      (E, s!"ok {toHex (Hand.poolThreads e)} {b}")
+    | _, _, _ => (E, "bad-request pool arguments")
+  | ["abuf", sz, len] =>
+    match parseHex sz, parseHex len with
+    | some s, some l =>
+      match Hand.zeroed s l with
+      | .ok b => (E, s!"ok {toHex b.len} {toHex b.allocatedSize}")
+      | .error f => (E, showFault f)
+    | _, _ => (E, "bad-request abuf arguments")
   | _ => (E, "bad-request")
 
 partial def loop (h : IO.FS.Stream) (out : IO.FS.Stream) (E : Env) : IO Unit := do
